@@ -124,12 +124,13 @@ theorem trxcon_cmd_emits (t : Trx) (c : PhyCmd) (hq : t.queue = []) (hst : t.sta
 verb, single blanks and decimal arguments, at most 1015 characters — shorter than
 `TRXC_BUF_SIZE` (1024) with its NUL, never cut by `snprintf`. -/
 theorem trxcon_cmd_wellformed (c : PhyCmd) (hv : ValidCmd c) :
-    ∀ e ∈ emitSpec c, WellFormedCmd e.text ∧ e.text.length + 1 < trxcBufSize ∧ (∀ ch ∈ e.text, ch ≠ 0) := by
+    ∀ e ∈ emitSpec c, WellFormedCmd e.text ∧ e.text.length ≤ 1015 ∧ e.text.length + 1 < trxcBufSize ∧
+      (∀ ch ∈ e.text, ch ≠ 0) := by
   intro e he
   obtain ⟨h1, h2, h3⟩ := emitSpec_wf c e he
   have hl := emitSpec_len c hv e he
   have hcap : trxcBufSize = 1024 := by decide
-  refine ⟨⟨e.verb, e.args, rfl, h1, h2, h3⟩, by omega, ?_⟩
+  refine ⟨⟨e.verb, e.args, rfl, h1, h2, h3⟩, hl, by omega, ?_⟩
   intro ch hch
   simp only [Emitted.text, List.mem_append, List.mem_flatMap] at hch
   rcases hch with (hch | hch) | ⟨a, ha, hch⟩
@@ -171,6 +172,24 @@ theorem setfh_len (hsn maio : Nat) (ma : List Nat) (hne : ma ≠ []) (hval : ∀
   · intro hl
     show (Emitted.text _).length ≤ 1015
     rw [h]; omega
+
+/-- …for a mobile allocation below 1 GHz (all pairs 14 characters: GSM 450/480/750/810/850/900)
+the command has exactly `11 + digits(hsn) + digits(maio) + 14·N` characters: at most 913 (+ NUL)
+for the 64 channels of observation F8. -/
+theorem setfh_len_low_bands (hsn maio : Nat) (ma : List Nat) (hne : ma ≠ [])
+    (h14 : ∀ a ∈ ma, (pairOf a).length = 14) :
+    (Emitted.text ⟨1, str "SETFH", fmtU (u8 hsn) :: fmtU (u8 maio) :: ma.flatMap pairToks⟩).length
+      = 11 + (fmtU (u8 hsn)).length + (fmtU (u8 maio)).length + 14 * ma.length := by
+  rw [setfh_text_len hsn maio ma hne]
+  have : (maText ma).length = 14 * ma.length := by
+    clear hne
+    induction ma with
+    | nil => rfl
+    | cons a t ih =>
+      rw [maText_cons, List.length_append, List.length_cons, h14 a (by simp),
+        ih (fun x hx => h14 x (by simp [hx]))]
+      omega
+  omega
 
 /-- …and the mobile allocation is refused with `-ENOSPC` exactly when its text does not fit
 `ma_buf[TRXC_BUF_SIZE - 24]` (999 characters + NUL); up to 62 channels always fit. -/
@@ -243,7 +262,7 @@ theorem trxcon_accepts_emitted (t : Trx) (c : PhyCmd) (hv : ValidCmd c) (e : Emi
         t'.ev = t.ev ++ [Event.timerDel, Event.term termError]) := by
   intro reply
   obtain ⟨_, hup, _⟩ := emitSpec_wf c e he
-  obtain ⟨_, _, hnz⟩ := trxcon_cmd_wellformed c hv e he
+  obtain ⟨_, _, _, hnz⟩ := trxcon_cmd_wellformed c hv e he
   have hcap : trxcBufSize = 1024 := by decide
   have hh : ReplyHyp e.verb (e.args.flatMap (fun a => 32 :: a)) results := by
     refine ⟨?_, ?_, hres, ?_⟩
